@@ -6,6 +6,8 @@ import EpdVerif.Oracle.All
 import EpdVerif.Props.Structural
 import EpdVerif.Big
 import EpdVerif.E2E
+import EpdVerif.Lemmas.SsdAddr
+import EpdVerif.Lemmas.UcFlags
 /-!
 # epdmodel — runs the Lean model on scenario lines and compares it with the harness trace
 
@@ -281,48 +283,129 @@ def main (args : List String) : IO UInt32 := do
     return 0
   | "e2e" :: rest => do
     -- material for the end-to-end theorems: for every panel / full-frame entry point, from a fresh
-    -- driver: the controller blocks for two different buffer contents (which blocks depend on the
-    -- buffer?) and the addressing state of the companion run when each data block arrives
+    -- driver (and, with `hist`, after every unit of a fixed history alphabet): the controller blocks
+    -- for two different buffer contents (which blocks depend on the buffer?) and the addressing
+    -- state of the companion run when each data block arrives
+    let f : Feat := { v2 := rest.contains "v2", alt := rest.contains "alt" }
+    let hist := rest.contains "hist"
+    for p in panels f do
+      let n := (p.width + 7) / 8 * p.height
+      let nb := if p.name == "epd7in5b_v2" then 2 * n else if Spec.isOct p.name then p.width / 2 * p.height else n
+      let emit (name hname : String) (len : Nat) (opsA opsB : List Op) (src : String) : IO Unit := do
+        let tg := Spec.fullTargets p.name name
+        if tg.isEmpty then return
+        let za : Bytes := List.replicate len 0
+        let _ := za
+        let blocksA := p.blocks opsA
+        let blocksB := p.blocks opsB
+        let zb : Bytes := (List.range len).map fun i => posByte i
+        let zc : Bytes := (List.range len).map fun i => posByte (i + 7)
+        let holes := ((List.range blocksA.length).filter fun i => blocksA[i]? != blocksB[i]?)
+        let srcOf (ps : Bytes) : String :=
+          let encs : List (String × Spec.Enc) := [("id", .id), ("inv", .inv), ("bpp2", .bpp2), ("bpp4", .bpp4), ("lo", .lo), ("hi", .hi)]
+          match (encs.flatMap fun (en, e) => [(0, zb), (1, zc)].filterMap fun (ai, z) =>
+              if ps == e.apply z then some s!"{ai}/{en}" else none) with
+          | x :: _ => x
+          | [] => "?"
+        let desc (i : Nat) : String := match blocksA[i]?, blocksB[i]? with
+          | some (.c c ps), some (.c _ psB) => s!"{i}:{hexByte c}:{ps.length}:{srcOf psB}"
+          | _, _ => s!"{i}:??:0:?"
+        let comp (i : Nat) : String := match p.ctrl with
+          | .ssd s0 =>
+            let c := Ssd.compRun (s0.withPlanes #[] #[]) (blocksA.take i)
+            s!"{c.xs},{c.xe},{c.ys},{c.ye},{c.stride},{c.rows},{Ssd.ready c ((blocksA[i]?.map fun b => match b with | .c _ ps => ps.length | _ => 0).getD 0)}"
+          | .uc u0 => s!"{u0.p1.size},{u0.p2.size},{Uc.ready (Uc.compRun (u0.withData #[] #[] []) (blocksA.take i))}"
+        let fam := match p.family with | .ssd => "ssd" | .uc => "uc" | .acep => "acep"
+        let tgs := ";".intercalate (tg.map fun t => s!"{t.plane},{reprStr t.enc},{t.arg}")
+        IO.println s!"E {p.name} {fam} {name} hist={hname} len={len} nblocks={blocksA.length} sameLen={blocksA.length == blocksB.length} nopanic={p.noPanic opsA} holes={",".intercalate (holes.map desc)} comp={"|".intercalate (holes.map comp)} targets={tgs} src={src.replace " " "~"}"
+      let ok (o : Op) : Bool := match p.prog p.init o with
+        | none => false
+        | some [Act.panic] => false
+        | some _ => true
+      if !hist then
+        let opsS : List (String × Nat × (Bytes → Bytes → Op) × String) := [
+          ("upd", nb, fun b _ => .upd b, ".upd b0"), ("updisp", nb, fun b _ => .updisp b, ".updisp b0"),
+          ("old", n, fun b _ => .old b, ".old b0"), ("newf", n, fun b _ => .newf b, ".newf b0"),
+          ("updispnew", n, fun b _ => .updispnew b, ".updispnew b0"), ("color", n, fun b c => .color b c, ".color b0 b1"),
+          ("achro", n, fun b _ => .achro b, ".achro b0"), ("chro", n, fun b _ => .chro b, ".chro b0"),
+          ("base", n, fun b _ => .base b, ".base b0")]
+        for (name, len, mk, src) in opsS do
+          if !ok (mk [] []) then continue
+          let za : Bytes := List.replicate len 0
+          let zb : Bytes := (List.range len).map fun i => posByte i
+          let zc : Bytes := (List.range len).map fun i => posByte (i + 7)
+          emit name "fresh" len [.new, mk za za] [.new, mk zb zc] s!"[.new, {src}]"
+      else
+        -- one unit of history between construction and a full-frame update (C02)
+        let Z (k : Nat) : Bytes × String := (List.replicate k 0, s!"(List.replicate {k} 0)")
+        let (zn, zns) := Z n
+        let (znb, znbs) := Z nb
+        let (zw, zws) := Z 16
+        let cand : List (String × List Op × String) := [
+          ("wake", [.wake], ".wake"), ("sleepwake", [.sleep, .wake], ".sleep, .wake"), ("disp", [.disp], ".disp"),
+          ("clear", [.clear], ".clear"), ("bg1clear", [.bg 1, .clear], ".bg 1, .clear"), ("wait", [.wait], ".wait"),
+          ("upd", [.upd znb], s!".upd {znbs}"), ("updisp", [.updisp znb], s!".updisp {znbs}"),
+          ("upddisp", [.upd znb, .disp], s!".upd {znbs}, .disp"),
+          ("part", [.part zw 8 16 16 8], s!".part {zws} 8 16 16 8"),
+          ("partdisp", [.part zw 8 16 16 8, .disp], s!".part {zws} 8 16 16 8, .disp"),
+          ("lutq", [.lut (some .quick)], ".lut (some .quick)"), ("lutf", [.lut (some .full)], ".lut (some .full)"),
+          ("lutqdisp", [.lut (some .quick), .disp], ".lut (some .quick), .disp"),
+          ("refq", [.refresh .quick], ".refresh .quick"), ("reff", [.refresh .full], ".refresh .full"),
+          ("refqupdisp", [.refresh .quick, .updisp znb], s!".refresh .quick, .updisp {znbs}"),
+          ("oldnew", [.old zn, .newf zn, .dispnew], s!".old {zns}, .newf {zns}, .dispnew"),
+          ("color", [.color zn zn], s!".color {zns} {zns}"), ("base", [.base zn], s!".base {zns}"),
+          ("poldpnew", [.pold zw 8 16 16 8, .pnew zw 8 16 16 8], s!".pold {zws} 8 16 16 8, .pnew {zws} 8 16 16 8"),
+          ("pclear", [.pclear 8 16 16 8], ".pclear 8 16 16 8"), ("border", [.border 0], ".border 0"),
+          ("sleepwakeclear", [.sleep, .wake, .clear], ".sleep, .wake, .clear")]
+        if !ok (.upd []) then continue
+        let zb : Bytes := (List.range nb).map fun i => posByte i
+        for (hname, ops, src) in cand do
+          if !(ops.all ok) then continue
+          emit "upd" hname nb ([.new] ++ ops ++ [.upd znb]) ([.new] ++ ops ++ [.upd zb]) s!"[.new, {src}, .upd b0]"
+    return 0
+  | "e2eany" :: rest => do
+    -- material for the from-any-state theorems: `update_frame` alone, per combination of the
+    -- control-relevant driver fields, from a scrambled addressing state
     let f : Feat := { v2 := rest.contains "v2", alt := rest.contains "alt" }
     for p in panels f do
       let n := (p.width + 7) / 8 * p.height
       let nb := if p.name == "epd7in5b_v2" then 2 * n else if Spec.isOct p.name then p.width / 2 * p.height else n
-      let opsS : List (String × Nat × (Bytes → Bytes → Op)) := [("upd", nb, fun b _ => .upd b), ("updisp", nb, fun b _ => .updisp b),
-        ("old", n, fun b _ => .old b), ("newf", n, fun b _ => .newf b), ("updispnew", n, fun b _ => .updispnew b),
-        ("color", n, fun b c => .color b c), ("achro", n, fun b _ => .achro b), ("chro", n, fun b _ => .chro b),
-        ("base", n, fun b _ => .base b)]
-      for (name, len, mk) in opsS do
-        let tg := Spec.fullTargets p.name name
-        if tg.isEmpty then continue
-        match p.prog p.init (mk [] []) with
-        | none => pure ()
-        | some [Act.panic] => pure ()
-        | some _ =>
-          let za : Bytes := List.replicate len 0
-          let zb : Bytes := (List.range len).map fun i => posByte i
-          let zc : Bytes := (List.range len).map fun i => posByte (i + 7)
-          let blocksA := p.blocks [.new, mk za za]
-          let blocksB := p.blocks [.new, mk zb zc]
-          let holes := ((List.range blocksA.length).filter fun i => blocksA[i]? != blocksB[i]?)
-          -- which argument (and encoding) a buffer-dependent block carries
-          let srcOf (ps : Bytes) : String :=
-            let encs : List (String × Spec.Enc) := [("id", .id), ("inv", .inv), ("bpp2", .bpp2), ("bpp4", .bpp4), ("lo", .lo), ("hi", .hi)]
-            match (encs.flatMap fun (en, e) => [(0, zb), (1, zc)].filterMap fun (ai, z) =>
-                if ps == e.apply z then some s!"{ai}/{en}" else none) with
-            | x :: _ => x
-            | [] => "?"
-          let desc (i : Nat) : String := match blocksA[i]?, blocksB[i]? with
-            | some (.c c ps), some (.c _ psB) => s!"{i}:{hexByte c}:{ps.length}:{srcOf psB}"
-            | _, _ => s!"{i}:??:0:?"
-          -- companion addressing state at each hole (SSD)
-          let comp (i : Nat) : String := match p.ctrl with
-            | .ssd s0 =>
-              let c := (blocksA.take i).foldl Ssd.feed (s0.withPlanes #[] #[])
-              s!"{c.xs},{c.xe},{c.ys},{c.ye},{c.stride},{c.rows}"
-            | .uc u0 => s!"{u0.p1.size},{u0.p2.size}"
-          let fam := match p.family with | .ssd => "ssd" | .uc => "uc" | .acep => "acep"
-          let tgs := ";".intercalate (tg.map fun t => s!"{t.plane},{reprStr t.enc},{t.arg}")
-          IO.println s!"E {p.name} {fam} {name} len={len} nblocks={blocksA.length} sameLen={blocksA.length == blocksB.length} nopanic={p.noPanic [.new, mk za za]} holes={",".intercalate (holes.map desc)} comp={"|".intercalate (holes.map comp)} targets={tgs}"
+      let tg := Spec.fullTargets p.name "upd"
+      if tg.isEmpty then continue
+      let za : Bytes := List.replicate nb 0
+      let zb : Bytes := (List.range nb).map fun i => posByte i
+      let combos : List (Refresh × Bool × Bool) := [.full, .quick].flatMap fun r => [false, true].flatMap fun o => [false, true].map fun pf => (r, o, pf)
+      let blocksFor (d : DState) (b : Bytes) : List Blk := blocksOf ((p.prog d (.upd b)).getD [.panic])
+      let all := combos.map fun (r, o, pf) => blocksFor { p.init with refresh := r, isOn := o, partialFlag := pf } za
+      let dindep := all.all (· == all.headD [])
+      for (r, o, pf) in combos do
+        let d : DState := { p.init with refresh := r, isOn := o, partialFlag := pf }
+        let blocksA := blocksFor d za
+        let blocksB := blocksFor d zb
+        let np := ((p.prog d (.upd za)).getD [.panic]).all (fun a => !a.isPanic)
+        let holes := ((List.range blocksA.length).filter fun i => blocksA[i]? != blocksB[i]?)
+        let srcOf (ps : Bytes) : String :=
+          let encs : List (String × Spec.Enc) := [("id", .id), ("inv", .inv), ("bpp2", .bpp2), ("bpp4", .bpp4), ("lo", .lo), ("hi", .hi)]
+          match (encs.filterMap fun (en, e) => if ps == e.apply zb then some s!"0/{en}" else none) with
+          | x :: _ => x
+          | [] => "?"
+        let desc (i : Nat) : String := match blocksA[i]?, blocksB[i]? with
+          | some (.c c ps), some (.c _ psB) => s!"{i}:{hexByte c}:{ps.length}:{srcOf psB}"
+          | _, _ => s!"{i}:??:0:?"
+        let comp (i : Nat) : String := match p.ctrl with
+          | .ssd s0 =>
+            let a0 : Ssd.Addr := ⟨s0.xPix, s0.stride, s0.rows, 3, 1, 2, 3, 4, 1, 3, false⟩
+            let a := (blocksA.take i).foldl Ssd.feedA a0
+            let len := (blocksA[i]?.map fun b => match b with | .c _ ps => ps.length | _ => 0).getD 0
+            s!"{a.xs},{a.xe},{a.ys},{a.ye},{a.stride},{a.rows},{Ssd.readyA a len},{s0.xPix}"
+          | .uc u0 =>
+            let f1 := (blocksA.take i).foldl Uc.feedF ⟨false, false, u0.has14⟩
+            let f2 := (blocksA.take i).foldl Uc.feedF ⟨false, true, u0.has14⟩
+            s!"{u0.p1.size},{u0.p2.size},{Uc.readyF f1},{Uc.readyF f2},{u0.has14}"
+        let fam := match p.family with | .ssd => "ssd" | .uc => "uc" | .acep => "acep"
+        let tgs := ";".intercalate (tg.map fun t => s!"{t.plane},{reprStr t.enc},{t.arg}")
+        let ds := s!"{if r == .full then "full" else "quick"},{o},{pf}"
+        IO.println s!"A {p.name} {fam} upd d={ds} dindep={dindep} len={nb} nblocks={blocksA.length} sameLen={blocksA.length == blocksB.length} nopanic={np} holes={",".intercalate (holes.map desc)} comp={"|".intercalate (holes.map comp)} targets={tgs}"
     return 0
   | "check" :: sf :: tf :: rest => do
     let rec opt (k : String) : List String → Option String
